@@ -319,9 +319,6 @@ func cmdCheck(args []string) int {
 	if s := os.Getenv("VERIF_SEED"); s != "" {
 		seed, _ = strconv.Atoi(s)
 	}
-	if id == "C20" {
-		return checkC20(*tier, seed, t0)
-	}
 	reg, err := loadRegistry()
 	if err != nil {
 		fmt.Println("INCONCLUSIVE", err)
@@ -346,7 +343,7 @@ func cmdCheck(args []string) int {
 		}
 		hs = append(hs, h)
 	}
-	if len(hs) == 0 && !(id == "C17" && onlySet["c17_race_bmc"]) {
+	if len(hs) == 0 && !(id == "C17" && onlySet["c17_race_bmc"]) && !(id == "C20" && onlySet["c20_sync_bmc"]) {
 		fmt.Printf("INCONCLUSIVE no harness registered for %s\n", id)
 		return 3
 	}
@@ -516,6 +513,14 @@ func cmdCheck(args []string) int {
 		inconclusive = append(inconclusive, rr.Inconclusive...)
 		extraCoverage = map[string]interface{}{"race_bmc": rr.Coverage}
 		extraAssumptions = rr.Assumptions
+	}
+	if id == "C20" && (len(onlySet) == 0 || onlySet["c20_sync_bmc"]) {
+		// the deadlock half of the property: synchronisation-skeleton model check (syncbmc.go)
+		v, inc, cov, as := checkC20core(*tier, seed, t0)
+		violations += v
+		inconclusive = append(inconclusive, inc...)
+		extraCoverage = map[string]interface{}{"sync_bmc": cov}
+		extraAssumptions = as
 	}
 	wall := time.Since(t0).Seconds()
 	writeEvidence(id, *tier, seed, evs, replays, loadSec, inconclusive, wall, violations)
